@@ -176,37 +176,49 @@ Proof.
   destruct (N.eqb_spec c 44); [subst; discriminate|]. now apply IH.
 Qed.
 
-Lemma closedb_escape v : closedb false (escape v) = true.
+Lemma hexdigit_not_sep n : n < 16 -> (hexdigit n =? backslash) = false /\ (hexdigit n =? comma) = false.
+Proof.
+  intros H. unfold hexdigit, backslash, comma.
+  destruct (N.ltb_spec n 10); split; apply N.eqb_neq; lia.
+Qed.
+
+Lemma closedb_escape hx v : closedb false (escape_hx hx v) = true.
 Proof.
   induction v as [|c v IH]; [reflexivity|].
-  cbn [escape flat_map]. fold (escape v). destruct (special c) eqn:E.
+  cbn [escape_hx flat_map]. fold (escape_hx hx v). destruct (hx c).
+  { cbn [app closedb]. change (92 =? backslash) with true. cbv iota.
+    destruct (hexdigit_not_sep (c mod 16)) as [E1 E2]; [apply N.mod_lt; discriminate|].
+    rewrite E1, E2. exact IH. }
+  destruct (special c) eqn:E.
   - cbn [app closedb]. change (92 =? backslash) with true. cbv iota. exact IH.
   - cbn [app closedb]. unfold special in E. unfold backslash, comma.
     destruct (N.eqb_spec c 92); [subst; discriminate|].
     destruct (N.eqb_spec c 44); [subst; discriminate|]. exact IH.
 Qed.
 
-Lemma closedb_render r : plain (fst r) = true -> closedb false (render_rdn r) = true.
+Lemma closedb_render hx r : plain (fst r) = true -> closedb false (render_rdn_hx hx r) = true.
 Proof.
-  intros H. unfold render_rdn. apply closedb_app; [now apply closedb_plain|].
+  intros H. unfold render_rdn_hx. apply closedb_app; [now apply closedb_plain|].
   apply closedb_app; [reflexivity | apply closedb_escape].
 Qed.
 
-Lemma escape_plain v : plain v = true -> escape v = v.
+Lemma escape_plain hx v : plain v = true -> nohex hx v = true -> escape_hx hx v = v.
 Proof.
-  induction v as [|c v IH]; intros H; [reflexivity|].
+  induction v as [|c v IH]; intros H Hn; [reflexivity|].
   cbn [plain forallb] in H. apply andb_true_iff in H. destruct H as [Hc Hv].
-  cbn [escape flat_map]. fold (escape v). destruct (special c); [discriminate|].
+  cbn [nohex forallb] in Hn. apply andb_true_iff in Hn. destruct Hn as [Hnc Hnv].
+  cbn [escape_hx flat_map]. fold (escape_hx hx v).
+  destruct (hx c); [discriminate|]. destruct (special c); [discriminate|].
   cbn [app]. f_equal. now apply IH.
 Qed.
 
 (* HasPrefix "DC=" on a rendered RDN holds exactly for the attribute type "DC" *)
-Lemma has_prefix_dc r : plain (fst r) = true ->
-  has_prefix dc_prefix (render_rdn r) = is_dc r.
+Lemma has_prefix_dc hx r : plain (fst r) = true ->
+  has_prefix dc_prefix (render_rdn_hx hx r) = is_dc r.
 Proof.
-  destruct r as [a v]. cbn [fst snd]. unfold render_rdn, is_dc, dc_prefix. cbn [fst snd].
+  destruct r as [a v]. cbn [fst snd]. unfold render_rdn_hx, is_dc, dc_prefix. cbn [fst snd].
   intros Hp.
-  destruct a as [|a0 a]; [cbn; destruct (escape v) as [|? [|? ?]]; reflexivity|].
+  destruct a as [|a0 a]; [cbn [app has_prefix bytes_eqb]; change (68 =? 61) with false; reflexivity|].
   cbn [plain forallb] in Hp. apply andb_true_iff in Hp. destruct Hp as [H0 Hp].
   cbn [app has_prefix bytes_eqb].
   destruct (N.eqb_spec 68 a0) as [<-|Hn0].
@@ -226,9 +238,10 @@ Proof.
   destruct (N.eqb_spec 61 a2) as [<-|Hn2]; [discriminate|]. reflexivity.
 Qed.
 
-Lemma skipn3_render r : is_dc r = true -> plain (snd r) = true -> skipn 3 (render_rdn r) = snd r.
+Lemma skipn3_render hx r : is_dc r = true -> plain (snd r) = true -> nohex hx (snd r) = true ->
+  skipn 3 (render_rdn_hx hx r) = snd r.
 Proof.
-  destruct r as [a v]. unfold is_dc, render_rdn. cbn [fst snd]. intros Ha Hv.
+  destruct r as [a v]. unfold is_dc, render_rdn_hx. cbn [fst snd]. intros Ha Hv Hn.
   apply bytes_eqb_spec in Ha. subst a. cbn [app skipn]. now apply escape_plain.
 Qed.
 
@@ -248,13 +261,13 @@ Proof.
   change (dot =? dot) with true. cbv iota. apply rev_involutive.
 Qed.
 
-Theorem domain_of_dn_spec rs : dn_ok rs -> domain_of_dn (render_dn rs) = dns_domain rs.
+Theorem domain_of_dn_hx_spec hx rs : dn_ok_hx hx rs -> domain_of_dn (render_dn_hx hx rs) = dns_domain rs.
 Proof.
-  intros Hok. unfold domain_of_dn, render_dn, dns_domain.
+  intros Hok. unfold domain_of_dn, render_dn_hx, dns_domain.
   destruct rs as [|r0 rs0] eqn:Ers; [reflexivity|]. rewrite <- Ers in *.
-  assert (Hparts : split_go false (join [comma] (map render_rdn rs)) [] = map render_rdn rs).
+  assert (Hparts : split_go false (join [comma] (map (render_rdn_hx hx) rs)) [] = map (render_rdn_hx hx) rs).
   { rewrite split_go_join.
-    - destruct (map render_rdn rs); reflexivity.
+    - destruct (map (render_rdn_hx hx) rs); reflexivity.
     - subst rs. discriminate.
     - apply Forall_map. eapply Forall_impl; [|exact Hok]. intros r [Hr _]. now apply closedb_render.
     - reflexivity. }
@@ -263,6 +276,15 @@ Proof.
   clear Hparts Ers. induction Hok as [|r rs [Hr1 Hr2] Hrs IH]; [reflexivity|].
   cbn [map flat_map filter]. rewrite has_prefix_dc by exact Hr1.
   destruct (is_dc r) eqn:E.
-  - cbn [map flat_map]. rewrite skipn3_render by auto. now rewrite IH.
+  - cbn [map flat_map]. destruct (Hr2 eq_refl) as [Hp Hn]. rewrite skipn3_render by auto. now rewrite IH.
   - cbn [app]. exact IH.
+Qed.
+
+Lemma nohex_none v : nohex (fun _ => false) v = true.
+Proof. induction v as [|c v IH]; [reflexivity|exact IH]. Qed.
+
+Theorem domain_of_dn_spec rs : dn_ok rs -> domain_of_dn (render_dn rs) = dns_domain rs.
+Proof.
+  intros Hok. apply domain_of_dn_hx_spec. eapply Forall_impl; [|exact Hok].
+  intros r [H1 H2]. split; [exact H1|]. intros E. split; [now apply H2|apply nohex_none].
 Qed.
